@@ -4,7 +4,7 @@ package main
 func init() {
 	add := map[string]string{
 		"C01": " (R13.3 converse) where the size probe accepts, the decoder does not reject on a guard over lengths alone; (R16.5) ordered insert into the pending field table; (R08.8) table readers decode the offset where the encoder writes it.",
-		"C02": " (R02.3) the negative 'index out of range' answers of the table offset readers lie behind a test of the index: a corrupt entry at a valid index cannot reach the accessors' index panic.",
+		"C02": " (R02.2 depth) the recursive parser carries no depth limit: KNOWN FINDING D30 - a well-formed value nested ~4 million levels deep (44 MB) overflows the 1 GB goroutine stack, a fatal error; (R02.3) the negative 'index out of range' answers of the table offset readers lie behind a test of the index: a corrupt entry at a valid index cannot reach the accessors' index panic.",
 		"C03": " (R07.10) one sender waits for window at a time; (R07.6) the open frame advertises the initial window; (R06.4) frames for unknown channels are dropped, not errors.",
 		"C04": " (R04.10) the rpc client reads the transport only while recvEnd is false; (R07.2) the flow-control thresholds also decide whether a streaming call completes.",
 		"C05": " (R14.23) qualified references use Type.ImportName; (R14.21) imports are marked used whatever the definition kind; (R13.3) probe and decoders agree, so generated accessors and the dynamic API read the same bytes.",
@@ -13,7 +13,7 @@ func init() {
 		"C08": " (R08.8) offset position inside a table entry: encoder and readers agree; (R16.1) full-width tag comparison also counts here.",
 		"C09": " (R07.9) the receive loop never waits for a sender's mutex.",
 		"C10": " (R08.4) every byte of an encoded string, the terminator included, is written.",
-		"C11": " (R09.8) lock pairing on the send path: an unlock of an unlocked mutex is a fatal error no recover stops; (R09.3) one frame per read, empty frames included.",
+		"C11": " (R02.2 depth) KNOWN FINDING D30: frame size and nesting depth are unbounded, a peer can kill the server process with one deeply nested frame; (R09.8) lock pairing on the send path: an unlock of an unlocked mutex is a fatal error no recover stops; (R09.3) one frame per read, empty frames included.",
 		"C12": " (R12.11) Reset empties the object stack, the element table and the field table.",
 		"C13": " (R13.3 converse); (R08.8).",
 		"C14": " (R14.21) import marking; (R14.22) a cached package is handed to an importer only when it is not being compiled; (R14.23) qualifiers.",
